@@ -337,7 +337,24 @@ func (c *FnCtx) assign(st *State, lhs ast.Expr, val *Term) {
 			k := c.eval(st, l.Index)
 			c.mapStore(st, m, u, k, val, l)
 		case *types.Slice:
-			c.unsupportedf(lhs, "element store into a slice (aliasing of backing arrays is not modelled)")
+			// x[i] = v for a local x that is created by make in this function and has no alias (never copied, sliced,
+			// stored or passed; only indexed, measured and returned): a functional update of the local value
+			id, ok := ast.Unparen(l.X).(*ast.Ident)
+			var lv *types.Var
+			if ok {
+				lv, _ = c.info.ObjectOf(id).(*types.Var)
+			}
+			if lv == nil || c.isGlobal(lv) || c.boxed[lv] || !c.unaliasedMake(lv) {
+				c.unsupportedf(lhs, "element store into a slice (aliasing of backing arrays is not modelled)")
+			}
+			sv := c.eval(st, l.X)
+			i := c.eval(st, l.Index)
+			c.oblige(st, "safe:idx", l, "", "index in range: "+c.exprText(l), mkAnd(mkLe(intLit(0), i), mkLt(i, c.sliceLen(sv))))
+			st.assume(mkAnd(mkLe(intLit(0), i), mkLt(i, c.sliceLen(sv))))
+			nv := c.nameSlice(st, c.mkSlice(sv.Sort, c.sliceLen(sv), mkStore(c.sliceArr(sv), i, val)), "upd")
+			st.assume(mkEq(c.sliceAt(nv, i), val))
+			c.assumptionsUsed["element stores into a local slice created by make and never aliased in the function are functional updates"] = true
+			c.assign(st, l.X, nv.withGo(xt))
 		default:
 			c.unsupportedf(lhs, "index assignment on %s", xt)
 		}
@@ -1357,4 +1374,81 @@ func (c *FnCtx) checkPost(st *State, rets []*Term, site ast.Node) {
 	if c.contract.Fresh && len(rets) > 0 && rets[0].Sort == SInt {
 		c.oblige(st, "post", c.fi.Decl, "fresh", "result is freshly allocated", mkOr(mkEq(rets[0], intLit(0)), mkLt(c.pre.alloc, rets[0])))
 	}
+}
+
+
+// unaliasedMake: local slice variable v is assigned only from make(...) and every other occurrence is x[i] (read or
+// store), len(x), cap(x), `range x`, or a return operand.
+func (c *FnCtx) unaliasedMake(v *types.Var) bool {
+	if c.fi == nil || c.fi.Decl == nil || c.fi.Decl.Body == nil {
+		return false
+	}
+	ok := true
+	isMake := func(e ast.Expr) bool {
+		call, isCall := ast.Unparen(e).(*ast.CallExpr)
+		if !isCall {
+			return false
+		}
+		id, isId := ast.Unparen(call.Fun).(*ast.Ident)
+		if !isId {
+			return false
+		}
+		b, isB := c.info.ObjectOf(id).(*types.Builtin)
+		return isB && b.Name() == "make"
+	}
+	isV := func(e ast.Expr) bool {
+		id, isId := ast.Unparen(e).(*ast.Ident)
+		return isId && c.info.ObjectOf(id) == v
+	}
+	allowed := map[*ast.Ident]bool{}
+	ast.Inspect(c.fi.Decl.Body, func(n ast.Node) bool {
+		switch x := n.(type) {
+		case *ast.AssignStmt:
+			for i, l := range x.Lhs {
+				if isV(l) {
+					if len(x.Lhs) != len(x.Rhs) || !isMake(x.Rhs[i]) {
+						ok = false
+					}
+					allowed[ast.Unparen(l).(*ast.Ident)] = true
+				}
+			}
+		case *ast.ValueSpec:
+			for i, nm := range x.Names {
+				if c.info.ObjectOf(nm) == v {
+					if len(x.Values) > 0 && (i >= len(x.Values) || !isMake(x.Values[i])) {
+						ok = false
+					}
+					allowed[nm] = true
+				}
+			}
+		case *ast.IndexExpr:
+			if isV(x.X) {
+				allowed[ast.Unparen(x.X).(*ast.Ident)] = true
+			}
+		case *ast.CallExpr:
+			if id, isId := ast.Unparen(x.Fun).(*ast.Ident); isId && len(x.Args) == 1 && isV(x.Args[0]) {
+				if b, isB := c.info.ObjectOf(id).(*types.Builtin); isB && (b.Name() == "len" || b.Name() == "cap") {
+					allowed[ast.Unparen(x.Args[0]).(*ast.Ident)] = true
+				}
+			}
+		case *ast.RangeStmt:
+			if isV(x.X) {
+				allowed[ast.Unparen(x.X).(*ast.Ident)] = true
+			}
+		case *ast.ReturnStmt:
+			for _, r := range x.Results {
+				if isV(r) {
+					allowed[ast.Unparen(r).(*ast.Ident)] = true
+				}
+			}
+		}
+		return true
+	})
+	ast.Inspect(c.fi.Decl.Body, func(n ast.Node) bool {
+		if id, isId := n.(*ast.Ident); isId && c.info.ObjectOf(id) == v && !allowed[id] {
+			ok = false
+		}
+		return true
+	})
+	return ok
 }
